@@ -174,7 +174,7 @@ StepAgain(s, e) ==
   IF ~s.call.active \/ ~s.sockOpen THEN Fail(s, "C08.transport_touched_outside_call")
   ELSE IF "pos" \in DOMAIN e /\ e.pos # s.taken THEN Fail(s, "C03.bytes_consumed_outside_the_calls")
   ELSE IF ~s.failed /\ s.due # <<>> THEN Fail(s, "C03.outcome_delayed_by_read")
-  ELSE Res([s EXCEPT !.due = <<DRaise("Transport")>>], TRUE, "")
+  ELSE Res([s EXCEPT !.due = <<DRaise("Again")>>], TRUE, "")
 
 StepEof(s, e) ==
   IF ~s.call.active \/ ~s.sockOpen THEN Fail(s, "C08.transport_touched_outside_call")
@@ -252,6 +252,8 @@ StepRaise(s, e) ==
             Fail(s, IF e.cls = "WebSocketProtocolException" THEN "C05.legal_frame_rejected"
                     ELSE IF e.cls = "WebSocketPayloadException" THEN "C06.well_formed_text_rejected"
                     ELSE "C03.spurious_exception")
+       ELSE IF d.cls = "Again" THEN      \* would-block: the transport's own error, or reported as a timeout; nothing else
+            IF e.terr \/ e.cls = "WebSocketTimeoutException" THEN Res(EndCall(s), TRUE, "") ELSE Fail(s, "C03.spurious_exception")
        ELSE IF d.cls = "Transport" THEN
             IF e.terr THEN Res(EndCall(s), TRUE, "") ELSE Fail(s, "C17.transport_error_remapped")
        ELSE IF e.cls # ClsOf(d.cls) THEN
